@@ -132,6 +132,12 @@ class ExprModel:
                     res = z3.If(to_z3(c) == idx, z3.If(nul(to_z3(r)), NULLV, val(to_z3(r))), res)
                 return res
             nd = DfObj(d.n, d.w, cell, d.colname)
+            srcs = dict(getattr(d, "strfilled_sources", {}))
+            for e in items:
+                if getattr(e, "strfilled_of", None) is not None:
+                    srcs[norm_str(e.name)] = e.strfilled_of
+            nd.strfilled_sources = srcs
+            nd.strfilled_frame = getattr(d, "strfilled_frame", d)
             return st.alloc(nd)
         if isinstance(recv, Expr):
             if name == "shift":
@@ -153,7 +159,25 @@ class ExprModel:
                     return (lambda i: z3.BoolVal(False)), (lambda i: z3.Or(an(i) != bn(i), z3.And(z3.Not(an(i)), z3.Not(bn(i)), av(i) != bv(i))))
                 return Expr(fn, "bool")
             if name == "alias":
-                return Expr(recv.fn, recv.kind, name=args[0])
+                e2 = Expr(recv.fn, recv.kind, name=args[0])
+                e2.strfilled_of = getattr(recv, "strfilled_of", None)
+                e2.cast_of = getattr(recv, "cast_of", None)
+                return e2
+            if name == "cast":
+                # cast(pl.Utf8): the string form of the value (null stays null); remembered so that concat_str can build the composite key
+                e2 = Expr(recv.fn, recv.kind)
+                e2.cast_of = recv
+                return e2
+            if name == "fill_null":
+                base = getattr(recv, "cast_of", None) or recv
+                fill = args[0]
+
+                def fn_fill(fr, base=base, fill=fill):
+                    bn, bv = base.at(fr)
+                    return (lambda i: z3.BoolVal(False)), (lambda i: z3.If(bn(i), STRFILL(to_z3(norm_str(fill))), bv(i)))
+                e2 = Expr(fn_fill, "val")
+                e2.strfilled_of = base
+                return e2
             if name == "to_list":
                 dref, col = getattr(recv, "src", (None, None))
                 if dref is None:
@@ -220,4 +244,45 @@ def h_lit(I, st, args, kwargs, node):
     return Expr(lambda fr, v=v: ((lambda i: z3.BoolVal(False)), (lambda i: to_z3(v))), "val")
 
 
-HANDLERS = {"pl.int_range": h_int_range, "pl.when": h_when, "pl.col": h_col, "pl.lit": h_lit}
+STRFILL = z3.Function("value_of_fill_string", StrSort, ValSort)
+_KEYCAT = {}
+
+
+def keycat(n):
+    """composite key of n (null-as-value) column values: pl.concat_str of their null-filled string casts with a separator"""
+    if n not in _KEYCAT:
+        _KEYCAT[n] = z3.Function(f"composite_group_key_{n}", *([ValSort] * n + [ValSort]))
+    return _KEYCAT[n]
+
+
+def h_concat_str(I, st, args, kwargs, node):
+    """pl.concat_str([names of null-filled string columns], separator=...): row i -> KEY_n(v_0(i), ..., v_{n-1}(i)) over the ORIGINAL
+    column values (null as a value).  The contract using it states the injectivity precondition of this encoding."""
+    from ..seqs import iter_values
+    names = [norm_str(x) for x in iter_values(I, st, args[0], node)]
+    if not all(isinstance(x, str) for x in names):
+        raise OutOfSubset("concat_str over non-literal column names")
+
+    def fn(fr, names=names):
+        if fr is None:
+            raise OutOfSubset("concat_str evaluated without a frame")
+        src = getattr(fr, "strfilled_sources", {})
+        vals = []
+        for nm in names:
+            base = src.get(nm)
+            if base is None:
+                raise OutOfSubset(f"concat_str over column {nm} that is not a null-filled string cast")
+            vals.append(base)
+        K = keycat(len(vals))
+
+        def value(i, vals=vals, K=K, fr=fr):
+            parts = []
+            for b in vals:
+                bn, bv = b.at(fr.strfilled_frame)
+                parts.append(z3.If(bn(i), NULLV, bv(i)))
+            return K(*parts)
+        return (lambda i: z3.BoolVal(False)), value
+    return Expr(fn, "val")
+
+
+HANDLERS = {"pl.int_range": h_int_range, "pl.when": h_when, "pl.col": h_col, "pl.lit": h_lit, "pl.concat_str": h_concat_str}
